@@ -7,6 +7,7 @@ Blank nodes are ["b", label]; the label is what the document spells (`_:label`, 
 from __future__ import annotations
 
 import json
+import re
 
 XSD = "http://www.w3.org/2001/XMLSchema#"
 RDF = "http://www.w3.org/1999/02/22-rdf-syntax-ns#"
@@ -128,6 +129,34 @@ def write_nquads(quads, style=None):
 
 
 # ---------------------------------------------------------------- Turtle / TriG
+
+_PN_ESC = set("_~.-!$&'()*+,;=/?#@%")
+
+
+def _pn_local(local, st):
+    """a legal PN_LOCAL spelling of `local` (Turtle 1.1 / TriG grammar), or None: reserved characters as \\c, a leading '-' or '.' and a
+    trailing '.' always escaped, ':' and inner '.' and '-' as they are or escaped"""
+    out = []
+    n = len(local)
+    for k, c in enumerate(local):
+        if c in _PN_OK:
+            out.append("\\_" if c == "_" and st.random() < 0.1 else c)
+        elif c == ":":
+            out.append(c)
+        elif c == "-":
+            out.append("\\-" if k == 0 or st.random() < 0.3 else c)
+        elif c == ".":
+            out.append("\\." if k in (0, n - 1) or st.random() < 0.3 else c)
+        elif c == "%" and k + 2 < n and all(h in "0123456789abcdefABCDEF" for h in local[k + 1 : k + 3]) and st.random() < 0.5:
+            out.append(c)  # PERCENT: the three characters stand for themselves
+        elif c in _PN_ESC:
+            out.append("\\" + c)
+        elif c.isalpha() and 0xC0 <= ord(c) <= 0x2FF and ord(c) not in (0xD7, 0xF7):
+            out.append(c)
+        else:
+            return None
+    return "".join(out)
+
 
 _PN_OK = set("abcdefghijklmnopqrstuvwxyzABCDEFGHIJKLMNOPQRSTUVWXYZ0123456789_")
 
@@ -283,6 +312,10 @@ class _Ttl:
                 local = iri[len(ns) :]
                 if local and set(local) <= _PN_OK and st.random() < 0.8:
                     return p + ":" + local
+                if local and not self.n3 and st.random() < 0.8:
+                    spelled = _pn_local(local, st)
+                    if spelled is not None:
+                        return p + ":" + spelled
                 if not local and st.random() < 0.5:
                     return p + ":"
         if self.base and iri.startswith(self.base) and st.random() < 0.6:
@@ -515,6 +548,225 @@ def write_rdfxml(quads, style=None, ext_base=None):
     return "\n".join(out) + "\n"
 
 
+_NCNAME = re.compile(r"^[A-Za-z_À-ÖØ-öø-˿][\w.\-·]*$")
+
+
+def write_rdfxml_rich(quads, style, ext_base=None):
+    """RDF/XML with the syntax's alternative forms: one node element per subject, typed node elements, property attributes,
+    rdf:type as attribute, nested node elements, rdf:parseType="Resource" and "Collection", rdf:li, rdf:ID, label-free blank nodes,
+    xml:base (declared on the root or on inner elements, inherited) with relative references - also in rdf:datatype -, an inherited
+    xml:lang, empty property elements, prefixes declared on the root or where they are used, an optional rdf:RDF root."""
+    st = _st(style)
+    triples = []
+    for s_, p_, o_, g_ in quads:
+        if g_ is not None:
+            raise ValueError("named graph in RDF/XML")
+        triples.append((s_, p_, o_))
+    K = json.dumps
+    blocks, order = {}, []
+    for s_, p_, o_ in triples:
+        if K(s_) not in blocks:
+            blocks[K(s_)] = []
+            order.append(s_)
+        blocks[K(s_)].append((p_, o_))
+    refs = {}
+    for s_, p_, o_ in triples:
+        if o_[0] == "b":
+            refs[o_[1]] = refs.get(o_[1], 0) + 1
+    lists = {h: v for h, v in find_lists(triples, quads).items() if all(m[0] != "l" for m in v[0])}
+    emitted, used_ids = set(), set()
+    nsdecl = {}  # namespaces declared on the root: ns -> prefix
+
+    def split(iri):
+        i = max(iri.rfind("#"), iri.rfind("/")) + 1
+        ns, local = iri[:i], iri[i:]
+        if not ns or not _NCNAME.match(local):
+            raise ValueError("predicate or class IRI cannot be an XML name: " + iri)
+        return ns, local
+
+    counter = [0]
+
+    def qname(iri):
+        """(qualified name, xmlns declaration to put on the element or '')"""
+        ns, local = split(iri)
+        if ns == RDF:
+            return "rdf:" + local, ""
+        if ns in nsdecl:
+            return nsdecl[ns] + ":" + local, ""
+        if st.random() < 0.4 and len(nsdecl) < 6:
+            nsdecl[ns] = "n%d" % len(nsdecl)
+            return nsdecl[ns] + ":" + local, ""
+        counter[0] += 1
+        return "p%d:%s" % (counter[0], local), ' xmlns:p%d="%s"' % (counter[0], _xml_esc(ns, True))
+
+    def ref(iri, eff):
+        if not eff:
+            return iri
+        effdoc = eff.split("#")[0]
+        effdir = effdoc[: effdoc.rfind("/") + 1]
+        if iri == effdoc and st.random() < 0.7:
+            return ""
+        if iri.startswith(effdoc + "#") and st.random() < 0.8:
+            return iri[len(effdoc) :]
+        if iri.startswith(effdir) and len(iri) > len(effdir) and st.random() < 0.8:
+            rel = iri[len(effdir) :]
+            first = rel.split("/")[0].split("#")[0].split("?")[0]
+            if rel[0] not in "#?/" and ":" not in first:
+                return rel
+        return iri
+
+    def pick_base(eff, iris):
+        """maybe a new xml:base for an element: (attribute text, base in force)"""
+        if ext_base or st.random() < 0.6:
+            return "", eff
+        r = st.random()
+        cands = [i for i in iris if i.startswith("http://") and i.count("/") >= 3]
+        if r < 0.3 or not cands:
+            b = "http://base%d.example/dir/" % st.randint(1, 3)
+        else:
+            i = st.choice(cands)
+            b = st.choice([i[: i.rfind("/") + 1], i.split("#")[0], i[: i.rfind("/") + 1] + "doc.rdf"])
+        return ' xml:base="%s"' % _xml_esc(b, True), b
+
+    def lit_attrs(o, scope, eff):
+        lang = o[2] if len(o) > 2 else None
+        dt = o[3] if len(o) > 3 else None
+        if dt:
+            return ' rdf:datatype="%s"' % _xml_esc(ref(dt, eff), True)
+        if lang == scope and st.random() < 0.7:
+            return ""
+        return ' xml:lang="%s"' % (lang or "")
+
+    def node(subj, eff, scope, ind, nested):
+        """the node element for `subj` with all its statements"""
+        k = K(subj)
+        emitted.add(k)
+        props = list(blocks.get(k, []))
+        iris = [t[1] for t in [subj] + [o for _, o in props] if t[0] == "u"]
+        battr, eff = pick_base(eff, iris)
+        lattr = ""
+        if st.random() < 0.15:
+            scope = st.choice(["en", "fr", ""]) or None
+            lattr = ' xml:lang="%s"' % (scope or "")
+        name, decl = "rdf:Description", ""
+        for i, (p_, o_) in enumerate(props):
+            if p_[1] == RDF + "type" and o_[0] == "u" and st.random() < 0.5:
+                try:
+                    name, decl = qname(o_[1])
+                except ValueError:
+                    break
+                if name.startswith("rdf:") and name[4:] in ("RDF", "ID", "about", "parseType", "resource", "nodeID", "datatype", "li", "Description"):
+                    name, decl = "rdf:Description", ""
+                    break
+                del props[i]
+                break
+        attrs = decl + battr + lattr
+        if subj[0] == "u":
+            effdoc = (eff or "").split("#")[0]
+            frag = subj[1][len(effdoc) + 1 :] if eff and subj[1].startswith(effdoc + "#") else ""
+            if frag and _NCNAME.match(frag) and subj[1] not in used_ids and st.random() < 0.6:
+                used_ids.add(subj[1])
+                attrs += ' rdf:ID="%s"' % frag
+            else:
+                attrs += ' rdf:about="%s"' % _xml_esc(ref(subj[1], eff), True)
+        elif refs.get(subj[1], 0) > (1 if nested else 0) or st.random() < 0.4:
+            attrs += ' rdf:nodeID="%s"' % subj[1]
+        # property attributes: plain literals in the language in scope, each property once; rdf:type with an IRI
+        seen_attr, rest = set(), []
+        for p_, o_ in props:
+            plain = o_[0] == "l" and not (len(o_) > 3 and o_[3]) and ((o_[2] if len(o_) > 2 else None) == scope)
+            if plain and p_[1] not in seen_attr and not p_[1].startswith(RDF) and st.random() < 0.3:
+                qn, d = qname(p_[1])
+                if d and d.split("=")[0] in attrs:
+                    rest.append((p_, o_))
+                    continue
+                seen_attr.add(p_[1])
+                attrs += d + ' %s="%s"' % (qn, _xml_esc(o_[1], True))
+            elif p_[1] == RDF + "type" and o_[0] == "u" and RDF + "type" not in seen_attr and st.random() < 0.3:
+                seen_attr.add(RDF + "type")
+                attrs += ' rdf:type="%s"' % _xml_esc(ref(o_[1], eff), True)
+            else:
+                rest.append((p_, o_))
+        # rdf:_1 .. rdf:_k, each once, may be written as rdf:li in that order
+        nums = sorted(int(p_[1][len(RDF) + 1 :]) for p_, _ in rest if p_[1].startswith(RDF + "_") and p_[1][len(RDF) + 1 :].isdigit())
+        as_li = bool(nums) and nums == list(range(1, len(nums) + 1)) and st.random() < 0.6
+        if as_li:
+            li = sorted([(p_, o_) for p_, o_ in rest if p_[1].startswith(RDF + "_")], key=lambda x: int(x[0][1][len(RDF) + 1 :]))
+            others = [(p_, o_) for p_, o_ in rest if not p_[1].startswith(RDF + "_")]
+            merged = []
+            while li or others:
+                if li and (not others or st.random() < 0.5):
+                    merged.append(((["u", RDF + "li"]), li.pop(0)[1]))
+                else:
+                    merged.append(others.pop(0))
+            rest = merged
+        if not rest:
+            return [ind + "<%s%s/>" % (name, attrs)]
+        out = [ind + "<%s%s>" % (name, attrs)]
+        for p_, o_ in rest:
+            out += prop(p_, o_, eff, scope, ind + "  ")
+        out.append(ind + "</%s>" % name.split(" ")[0])
+        return out
+
+    def prop(p_, o_, eff, scope, ind):
+        qn, d = qname(p_[1])
+        tag = qn + d
+        if o_[0] == "u":
+            if K(o_) in blocks and K(o_) not in emitted and st.random() < 0.4:
+                return [ind + "<%s>" % tag] + node(o_, eff, scope, ind + "  ", True) + [ind + "</%s>" % qn]
+            return [ind + '<%s rdf:resource="%s"/>' % (tag, _xml_esc(ref(o_[1], eff), True))]
+        if o_[0] == "b":
+            if o_[1] in lists and K(o_) not in emitted and st.random() < 0.8:
+                members, cells = lists[o_[1]]
+                if all(K(c) not in emitted for c in cells):
+                    for c in cells:
+                        emitted.add(K(c))
+                    out = [ind + '<%s rdf:parseType="Collection">' % tag]
+                    for m in members:
+                        if K(m) in blocks and K(m) not in emitted and (m[0] == "u" or refs.get(m[1], 0) == 1) and st.random() < 0.4:
+                            out += node(m, eff, scope, ind + "  ", True)
+                        elif m[0] == "u":
+                            out.append(ind + '  <rdf:Description rdf:about="%s"/>' % _xml_esc(ref(m[1], eff), True))
+                        else:
+                            out.append(ind + '  <rdf:Description rdf:nodeID="%s"/>' % m[1])
+                    return out + [ind + "</%s>" % qn]
+            if K(o_) in blocks and K(o_) not in emitted and refs.get(o_[1], 0) == 1 and o_[1] not in lists and st.random() < 0.6:
+                if st.random() < 0.5:
+                    emitted.add(K(o_))
+                    out = [ind + '<%s rdf:parseType="Resource">' % tag]
+                    for p2, o2 in blocks[K(o_)]:
+                        out += prop(p2, o2, eff, scope, ind + "  ")
+                    return out + [ind + "</%s>" % qn]
+                return [ind + "<%s>" % tag] + node(o_, eff, scope, ind + "  ", True) + [ind + "</%s>" % qn]
+            if K(o_) not in blocks and refs.get(o_[1], 0) == 1 and st.random() < 0.3:
+                # a blank node that is object once and subject never: an empty nested node element, or rdf:parseType="Resource"
+                return [ind + st.choice(["<%s><rdf:Description/></%s>" % (tag, qn), '<%s rdf:parseType="Resource"/>' % tag])]
+            return [ind + '<%s rdf:nodeID="%s"/>' % (tag, o_[1])]
+        la = lit_attrs(o_, scope, eff)
+        if o_[1] == "" and st.random() < 0.5:
+            return [ind + "<%s%s/>" % (tag, la)]
+        return [ind + "<%s%s>%s</%s>" % (tag, la, _xml_esc(o_[1]), qn)]
+
+    amb = st.choice([None, None, "en", "de"])
+    all_iris = [t[1] for tr in triples for t in tr if t[0] == "u"]
+    rbase, eff = pick_base(ext_base, all_iris)
+    body = []
+    for subj in order:
+        if K(subj) not in emitted:
+            body += node(subj, eff, amb, "  ", False)
+    decls = "".join(' xmlns:%s="%s"' % (pfx, _xml_esc(ns, True)) for ns, pfx in nsdecl.items())
+    head = '<?xml version="1.0" encoding="utf-8"?>'
+    tops = [ln for ln in body if ln.startswith("  <") and not ln.startswith("   ") and not ln.startswith("  </")]
+    if len(tops) == 1 and not rbase and st.random() < 0.2:
+        # a single node element may be the document element (rdf:RDF is optional)
+        first = body[0]
+        j = len(first) - (2 if first.endswith("/>") else 1)
+        body[0] = first[:j] + ' xmlns:rdf="%s"%s%s' % (RDF, decls, f' xml:lang="{amb}"' if amb and " xml:lang=" not in first else "") + first[j:]
+        return "\n".join([head] + body) + "\n"
+    root = '<rdf:RDF xmlns:rdf="%s"%s%s%s>' % (RDF, decls, rbase, f' xml:lang="{amb}"' if amb else "")
+    return "\n".join([head, root] + body + ["</rdf:RDF>"]) + "\n"
+
+
 def write_trix(quads, style=None):
     def term(t):
         if t[0] == "u":
@@ -555,7 +807,7 @@ def write_trix(quads, style=None):
 
 def write_jsonld(quads, style=None, ext_base=None):
     def ident(t):
-        if t[0] == "u" and ext_base and t[1].startswith(ext_base) and len(t[1]) > len(ext_base):
+        if t[0] == "u" and ext_base and t[1].startswith(ext_base) and len(t[1]) > len(ext_base) and ":" not in t[1][len(ext_base) :]:
             return t[1][len(ext_base) :]  # relative to the base the caller of parse() supplies
         return t[1] if t[0] == "u" else "_:" + t[1]
 
